@@ -143,6 +143,8 @@ def QuantumSignalProcessingPhases(
         raise ValueError(f"Invalid method {method}")
 
     model = (signal_operator, measurement)
+    # A polynomial given by d + 1 coefficients is answered with d + 1 phases.
+    num_phases = len(poly.coef)
 
     # Perform completion
     if model in {("Wx", "x"), ("Wz", "z")}:
@@ -162,6 +164,14 @@ def QuantumSignalProcessingPhases(
 
     # Decomposition phase
     phiset = angseq(lalg)
+
+    # The degree drops when the highest coefficient vanishes, e.g. when it is
+    # cancelled exactly by the capitalization (coefficient -eps/2): the sequence
+    # found is then too short for the polynomial that was asked for.
+    if len(phiset) != num_phases:
+        raise AngleFindingError(
+            "The angle finding program found {} phases for a polynomial given by {} coefficients; the highest coefficient vanishes after capitalization. Please change eps.".format(
+                len(phiset), num_phases))
 
     # Verify by reconstruction
     adat = np.linspace(-1., 1., 100)
